@@ -3,6 +3,7 @@ import CasbinVerif.Driver.Store
 import CasbinVerif.Driver.Enforcer
 import CasbinVerif.Driver.KeyMatch
 import CasbinVerif.Driver.Config
+import CasbinVerif.Driver.Cached
 /-
   casbin-model: the line-protocol driver.  Reads one operation per line on stdin and prints, for
   every line, `<model observation> ;; <spec observation> ;; <wf>` where `wf` tells whether the line
@@ -15,6 +16,7 @@ structure DState where
   comp : String := ""
   store : StoreSt := {}
   enf : EnfSt := {}
+  cached : CachedSt := {}
 
 def fmt (m s : String) (wf : Bool) : String := s!"{m} ;; {s} ;; {if wf then 1 else 0}"
 
@@ -37,6 +39,10 @@ def stepLine (st : DState) (line : String) : DState × String :=
     else if comp == "enforcer" then
       match enfOp st.enf ts with
       | some (s', m, s, wf) => ({ st with enf := s' }, fmt m s wf)
+      | none => (st, "bad-op")
+    else if comp == "cached" then
+      match cachedOp st.cached ts with
+      | some (s', m, s, wf) => ({ st with cached := s' }, fmt m s wf)
       | none => (st, "bad-op")
     else (st, "bad-op")
 
